@@ -171,3 +171,25 @@ fn c03_4d_waiting_to_resume() { run_frozen(2) }
 #[kani::proof]
 #[kani::unwind(8)]
 fn c03_4e_stopped() { run_frozen(3) }
+
+// @ob id=C11.1a strength=bounded tier=quick timeout=1800 bound="3 symbolic frames, sample_rate 1, dt 1 (rate 1); 2 output frames rendered as one 2-frame call vs two 1-frame calls" fn=sound/static_sound/sound.rs::<StaticSound as Sound>::process
+// @req two identical sounds (same data, default settings, constant parameters)
+// @ens the rendered frames are bit-identical and so is the playback position afterwards, whatever the buffer size
+#[kani::proof]
+#[kani::unwind(8)]
+fn c11_1a_static_sound_chunk_independent() {
+    let src = any_frames3();
+    let (mut a, ha) = build(src, StaticSoundSettings::new(), None);
+    let (mut b, hb) = build(src, StaticSoundSettings::new(), None);
+    let info = empty_info();
+    let mut x = [Frame::ZERO; 2];
+    a.process(&mut x, 1.0, &info);
+    let mut y = [Frame::ZERO; 2];
+    b.process(&mut y[0..1], 1.0, &info);
+    b.process(&mut y[1..2], 1.0, &info);
+    assert!(same(x[0], y[0]) && same(x[1], y[1]), "C11.1a: rendered audio does not depend on the buffer size");
+    assert!(same(x[0], src[0]) && same(x[1], src[1]), "C04.8: and is the source");
+    assert!(a.transport.position == b.transport.position && a.fractional_position == b.fractional_position && a.resampler.current_frame_index() == b.resampler.current_frame_index(), "C11.1a: nor does the playback position");
+    kani::cover!(src[0].left != src[1].left);
+    core::mem::forget(info); core::mem::forget(a); core::mem::forget(b); core::mem::forget(ha); core::mem::forget(hb);
+}
